@@ -13,7 +13,12 @@ def gen_obj(rng, torch, torchtt):
         return history.rand_tt(rng, dtype, ttm=rng.random() < 0.4, d=d), kind
     if kind in ("svd", "svd-op"):
         N = [rng.choice([1, 2, 3]) for _ in range(d if kind == "svd" else 2 * min(d, 3))]
-        A = torch.tensor(np.array([rng.gauss(0, 1) for _ in range(int(np.prod(N)))]).reshape(N)).to(dtype)
+        A = np.zeros(N)
+        for _ in range(rng.choice([1, 2])):          # exactly low rank: the ranks are then chosen by rank_chop's argmax (numpy integers)
+            t = np.array(1.0)
+            for n_ in N: t = np.multiply.outer(t, np.array([rng.gauss(0, 1) for _ in range(n_)]))
+            A = A + t
+        A = torch.tensor(A).to(dtype)
         if kind == "svd": return torchtt.TT(A, eps=1e-6), kind                      # R holds numpy integers
         h = len(N) // 2
         return torchtt.TT(A, [(N[j], N[h + j]) for j in range(h)], eps=1e-6), kind
